@@ -45,3 +45,39 @@ Proof.
   constructor. { right; right. repeat split; reflexivity. }
   constructor.
 Qed.
+
+(* ---------------------------------------------------------------------------------------------------------------- *)
+(* The staircase clause.  Its full statement `C17_staircase_statement` (Spec.v: under the two guards, every history the
+   pipeline produces is the staircase of the source, with the same total duration) is OPEN: it is tested by the
+   correspondence check on every generated case, not proved.  Proved here: the guards are necessary -- the faithful
+   model of the unchanged translator violates the unguarded statement (witnesses = the known findings) -- and the
+   guarded hypotheses are satisfiable by a non-trivial nest that plays correctly. *)
+
+(* repetition-entry-state, plain voltage elided at the loop entry: hold(1.5); 3 x (hold(1.5); hold(2.5)) *)
+Theorem C17_staircase_refuted_repetition : ~ C17_staircase_unguarded true false.
+Proof. exact staircase_refuted_repetition. Qed.
+Print Assumptions C17_staircase_refuted_repetition.
+
+(* repetition-entry-state, truncated dependency key: for j: 2 x (for i: hold(i/4 + j)) *)
+Theorem C17_staircase_refuted_repetition_inner_iteration : ~ C17_staircase_unguarded true false.
+Proof. exact staircase_refuted_repetition_inner. Qed.
+Print Assumptions C17_staircase_refuted_repetition_inner_iteration.
+
+(* zero-factor-aliases-plain: for i: hold(-0.5); hold(0 + 0*i); hold(-0.5) *)
+Theorem C17_staircase_refuted_zero_factor : ~ C17_staircase_unguarded false true.
+Proof. exact staircase_refuted_zero_factor. Qed.
+Print Assumptions C17_staircase_refuted_zero_factor.
+
+(* dep-key-shared-across-depths: a well-formed source satisfying both guards that the translator rejects (AssertionError) *)
+Theorem C17_compile_refuted_key_depth :
+  src_wf 2 wit_depth = true /\ guard_C17_zero_factor wit_depth = true /\
+  guard_C17_repetition_entry_state wit_depth = true /\ forall fuel, pipeline fuel 2 wit_depth = Err EAssert.
+Proof. exact compile_refuted_key_depth. Qed.
+Print Assumptions C17_compile_refuted_key_depth.
+
+(* non-vacuity of the guarded statement: 2 channels, two iteration levels (one with negative step), a repetition *)
+Example C17_staircase_statement_nonvacuous :
+  src_wf 2 wit_good = true /\ guard_C17_zero_factor wit_good = true /\ guard_C17_repetition_entry_state wit_good = true /\
+  exists h t, pipeline 1000 2 wit_good = Ok (h, t) /\ length h = 21%nat /\
+              plays h (fst (staircase wit_good)) = true /\ Qeq_bool t (snd (staircase wit_good)) = true.
+Proof. exact statement_nonvacuous. Qed.
